@@ -20,7 +20,12 @@ RULE = (
     "with probabilities, flips and iteration) on numeric, column-shaped, symbolic and mixed wavefunctions "
     "of 0-4 qubits, every step planned against a shadow model that predicts accept/reject; plus "
     "constructor inputs (lengths 0-1024, normalised / unnormalised / tolerance-boundary / symbolic), all "
-    "Dicke states n<=10 and invalid arguments, flips n<=10, save/load, simulator-made wavefunctions. "
+    "Dicke states n<=10 and invalid arguments, flips n<=10, save/load, simulator-made wavefunctions; plus "
+    "histories over up to 5 RELATED objects of 0-5 qubits (built from another one's amplitudes / slice / the "
+    "array the caller still holds / a copy / the object itself / a flip / a binding), legal and illegal "
+    "assignments through any of them (int, negative, slice, stepped-slice, list and array indices), every "
+    "object's probabilities (array and per-outcome), amplitudes and normalisation re-read after every step, "
+    "returned arrays / dicts overwritten by the caller in between. "
     "Non-trivial = history whose plan contains >=1 step predicted rejected and >=1 mutation predicted "
     "accepted; distinct = distinct canonical plan strings"
 )
@@ -33,12 +38,21 @@ ASSUMPTIONS = [
     "logic is what is judged)",
     "rejecting a step that would have kept the invariant is tallied (observed: rejected-valid) but is not a "
     "violation - the property only demands that breaking steps are refused and leave no trace",
-    "NaN amplitudes in a symbolic vector and aliasing of a caller-owned complex ndarray are outside the workload",
+    "NaN amplitudes in a symbolic vector and direct writes by the caller into an array it shares with a "
+    "wavefunction are outside the workload",
+    "wavefunctions may share storage with one another (Wavefunction(other.amplitudes) keeps the array): whether "
+    "two objects share storage is observed (numpy.may_share_memory on the stores), never demanded either way; of "
+    "each object only normalisation and probabilities = |its current amplitudes|^2 are demanded, an object "
+    "sharing nothing with the target of an assignment must come out unchanged, and after a refused assignment "
+    "every object must",
+    "per-outcome probabilities: the labelling of basis states is not part of the property; the values must be the "
+    "squared magnitudes under little-endian labels, big-endian labels or dictionary order",
 ]
 DECIDING = [
     "Wavefunction.__init__", "setitem:accepted", "setitem:rejected", "bind:accepted", "bind:rejected",
     "Wavefunction.get_probabilities", "Wavefunction.dicke_state", "flip_amplitudes", "flip_wavefunction",
     "history-shadow", "flip-involution", "save-load", "ctor-accepts-valid",
+    "Wavefunction.get_outcome_probs", "related-invariant", "related-bystander",
 ]
 BRANCHES = [
     "Wavefunction.__setitem__:rollback", "Wavefunction._check_normalization:numeric-reject",
@@ -46,14 +60,14 @@ BRANCHES = [
     "Wavefunction.dicke_state:enumerate",
 ]
 EXHAUSTIVE = {"dicke": "all (n, k) with 1 <= n <= 10, 0 <= k <= n"}
-BUDGET = {"quick": (4, 40, 350), "thorough": (16, 150, 100000)}
+BUDGET = {"quick": (4, 40, 385), "thorough": (16, 150, 100000)}
 
 ISCLOSE_BAND = 1e-8 + 1e-5  # np.isclose(x, 1.0): |x-1| <= atol + rtol*1
 _TMP = None
 
 
 def classes(tier):
-    return ["hist_numeric", "hist_symbolic", "hist_mixed", "hist_column", "ctor", "dicke",
+    return ["hist_numeric", "hist_symbolic", "hist_mixed", "hist_column", "hist_related", "ctor", "dicke",
             "dicke_invalid", "flip", "saveload", "simulator"]
 
 
@@ -391,6 +405,31 @@ def _post_bind(mon, call):
     mon.ok("bind:accepted")
 
 
+def _compare_probs(ent, flat):
+    """('ok' | 'ood' | 'bad', detail): are ``flat`` the squared magnitudes of the entries ``ent``?"""
+    syms = set()
+    for e in ent:
+        if isinstance(e, sympy.Basic):
+            syms |= e.free_symbols
+    pt = _point(syms)
+    for i, (e, p) in enumerate(zip(ent, flat)):
+        if _is_num(e):
+            exp = abs(_c(e)) ** 2
+            if not math.isfinite(exp):
+                return "ood", None
+            if not (_is_num(p) and abs(_c(p) - exp) <= 1e-12):
+                return "bad", f"entry {i}: amplitude {e} probability {p!r} expected {exp!r}"
+        else:
+            try:
+                got = _at(p, pt)
+                exp = abs(_at(e, pt)) ** 2
+            except Exception:
+                return "ood", None
+            if not abs(got - exp) <= 1e-9 * max(1.0, exp):
+                return "bad", f"entry {i}: amplitude {e} probability {p} evaluates to {got!r}, expected {exp!r}"
+    return "ok", None
+
+
 def _post_probs(mon, call):
     name = "Wavefunction.get_probabilities"
     self = call.args[0]
@@ -406,40 +445,75 @@ def _post_probs(mon, call):
     if len(flat) != len(ent):
         mon.violation("probabilities-length", f"{len(flat)} probabilities for {len(ent)} amplitudes")
         return
-    syms = set()
-    for e in ent:
-        if isinstance(e, sympy.Basic):
-            syms |= e.free_symbols
-    pt = _point(syms)
-    total = 0.0
-    for i, (e, p) in enumerate(zip(ent, flat)):
-        if _is_num(e):
-            exp = abs(_c(e)) ** 2
-            if not math.isfinite(exp):
-                mon.out_of_domain(name)
-                return
-            if not (_is_num(p) and abs(_c(p) - exp) <= 1e-12):
-                mon.violation("probabilities-not-squared-magnitudes",
-                              f"entry {i}: amplitude {e} probability {p!r} expected {exp!r}")
-                return
-            total += exp
-        else:
-            try:
-                got = _at(p, pt)
-                exp = abs(_at(e, pt)) ** 2
-            except Exception:
-                mon.out_of_domain(name)
-                return
-            if not abs(got - exp) <= 1e-9 * max(1.0, exp):
-                mon.violation("probabilities-not-squared-magnitudes",
-                              f"entry {i}: amplitude {e} probability {p} evaluates to {got!r}, expected {exp!r}")
-                return
+    verdict, detail = _compare_probs(ent, flat)
+    if verdict == "ood":
+        mon.out_of_domain(name)
+        return
+    if verdict == "bad":
+        mon.violation("probabilities-not-squared-magnitudes", detail)
+        return
     if all(_is_num(e) for e in ent) and judge(ent) == "ok":
         s = math.fsum(_c(p).real for p in flat)
         if not abs(s - 1.0) <= ISCLOSE_BAND * 1.01:
             mon.violation("probabilities-do-not-sum-to-1", f"sum {s!r} for {short_entries(ent)}")
             return
     mon.ok(name)
+
+
+def _scalar(v):
+    """a probability as stored in the outcome dictionary (a column-shaped store gives arrays of one element)"""
+    if isinstance(v, np.ndarray) and v.size == 1:
+        return v.reshape(-1)[0]
+    return v
+
+
+def _post_outcome_probs(mon, call):
+    """The per-outcome probabilities are the same numbers as ``get_probabilities``: squared magnitudes of the
+    object's current amplitudes.  The property does not fix how basis states are labelled, so the labelling is
+    not judged: the values must match under little-endian labels, big-endian labels or plain dictionary order."""
+    name = "Wavefunction.get_outcome_probs"
+    self = call.args[0]
+    before = call.pre
+    if before is None or call.exc is not None:
+        mon.out_of_domain(name)
+        return
+    if not same_snap(before, snap(self)):
+        mon.violation("probabilities-mutate-object", f"get_outcome_probs changed {short_entries(before[2])}")
+        return
+    ent = before[2]
+    n = len(ent)
+    d = call.result
+    if not isinstance(d, dict):
+        mon.out_of_domain(name)
+        return
+    if len(d) != n:
+        mon.violation("probabilities-length", f"{len(d)} outcome probabilities for {n} amplitudes")
+        return
+    nq = n.bit_length() - 1
+    orders = []
+    if nq >= 1:
+        for rev in (True, False):
+            keys = [format(i, f"0{nq}b")[::-1] if rev else format(i, f"0{nq}b") for i in range(n)]
+            if all(k in d for k in keys):
+                orders.append([_scalar(d[k]) for k in keys])
+    orders.append([_scalar(v) for v in d.values()])
+    first = None
+    for flat in orders:
+        verdict, detail = _compare_probs(ent, flat)
+        if verdict == "ood":
+            mon.out_of_domain(name)
+            return
+        if verdict == "ok":
+            if all(_is_num(e) for e in ent) and judge(ent) == "ok":
+                s = math.fsum(_c(p).real for p in flat)
+                if not abs(s - 1.0) <= ISCLOSE_BAND * 1.01:
+                    mon.violation("probabilities-do-not-sum-to-1", f"outcome probabilities sum {s!r} for {short_entries(ent)}")
+                    return
+            mon.ok(name)
+            return
+        first = first or detail
+    mon.violation("probabilities-not-squared-magnitudes",
+                  f"get_outcome_probs of {short_entries(ent)} = {str(d)[:300]}: {first}")
 
 
 def _dicke_args(call):
@@ -631,6 +705,7 @@ def install(mon, reach):
     reach.watch(WF.bind, "Wavefunction.bind", markers={"rejected": r"Passed map results in a violation"})
     reach.watch(WF.dicke_state, "Wavefunction.dicke_state", markers={"enumerate": r"indices\.append"})
     reach.watch(WF.get_probabilities, "Wavefunction.get_probabilities")
+    reach.watch(WF.get_outcome_probs, "Wavefunction.get_outcome_probs")
     reach.watch(W.flip_amplitudes, "flip_amplitudes")
     reach.watch(W._get_ordering, "_get_ordering")
     reach.watch(W.flip_wavefunction, "flip_wavefunction")
@@ -643,6 +718,8 @@ def install(mon, reach):
     mon.hook_method(WF, "__setitem__", post=_post_setitem, pre=_pre_state, name="Wavefunction.__setitem__")
     mon.hook_method(WF, "bind", post=_post_bind, pre=_pre_state, name="Wavefunction.bind")
     mon.hook_method(WF, "get_probabilities", post=_post_probs, pre=_pre_state, name="Wavefunction.get_probabilities")
+    mon.hook_method(WF, "get_outcome_probs", post=_post_outcome_probs, pre=_pre_state,
+                    name="Wavefunction.get_outcome_probs")
     mon.hook_method(WF, "dicke_state", post=_post_dicke, name="Wavefunction.dicke_state")
     mon.hook_func(W, "flip_amplitudes", post=_post_flip_amps, pre=_pre_flip_amps, name="flip_amplitudes")
     mon.hook_func(W, "flip_wavefunction", post=_post_flip_wf, pre=_pre_flip_wf, name="flip_wavefunction")
@@ -1194,6 +1271,357 @@ def _run_history(ctx, cls):
         ctx.check("history-final-invariant", abs(s - 1) <= ISCLOSE_BAND * 1.01, lambda: f"probabilities sum to {s!r}")
 
 
+# ----------------------------------------------------------------------------- histories over related objects
+# Several wavefunction objects that descend from one another (built from the amplitudes of another one, from a
+# slice of it, from the array the caller still holds, by flipping, by binding) are mutated in turn, and after
+# EVERY step EVERY object is asked for its probabilities.  What is demanded of each object is only what the
+# property states: it is still normalised, and its probabilities are the squared magnitudes of the amplitudes it
+# holds NOW.  Whether two objects share storage is observed (numpy's may_share_memory on the stores), never
+# predicted or demanded; an object that shares nothing with the target of a step must come out of it unchanged,
+# and after a refused step every object must.  Per-object derived state (memoised probabilities, converted
+# amplitudes, symbol sets) that goes stale through an assignment made via a relative shows up here.
+_REL_DERIVE_ND = ["amplitudes", "amplitudes", "getslice", "same_arg", "copy", "list", "wf", "flip", "bind_empty"]
+_REL_DERIVE_MAT = ["amplitudes", "getslice", "list", "wf", "flip", "bind_empty", "bind_some", "bind_some", "bind_total"]
+_REL_LEGAL_ND = ["rot", "rot", "rot", "swap", "move", "move", "whole", "phase"]
+_REL_LEGAL_MAT = ["num_small", "num_small", "sym", "complete", "pair_small"]
+_REL_ILLEGAL_ND = ["bad_single", "bad_single", "bad_pair", "bad_bcast"]
+_REL_ILLEGAL_MAT = ["num_big", "num_big", "sym_pair_big"]
+_REL_STYLES = ["slice", "negslice", "list", "array", "neglist"]
+_REL_MAX_POOL = 5
+
+
+def _plan_related(rng, quick):
+    flavour = rng.choice(["list", "carray", "carray", "farray", "column", "tuple", "mat", "mat"])
+    if flavour == "mat":
+        nq = rng.choice([1, 2, 2, 3])
+    else:
+        nq = rng.choice([0, 1, 2, 2, 3, 3, 4, 5])
+    n = 2**nq
+    if flavour == "mat":
+        pool = rng.sample(SYMBOLS, rng.randint(1, 3))
+        k = rng.randint(1, max(1, n - 1))
+        sym_at = set(rng.sample(range(n), k))
+        budget = rng.choice([0.0, 0.3, 0.7])
+        u = rand_unit_vector(rng, n, "dense")
+        distinct = rng.random() < 0.6
+        names = rng.sample(SYMBOLS + [f"a{i}" for i in range(8)], n)
+        ent = []
+        for i in range(n):
+            if i in sym_at:
+                ent.append(sympy.Symbol(names[i]) if distinct else rand_sym_entry(rng, pool))
+            else:
+                ent.append(_r(abs(u[i]) * math.sqrt(budget)) * rng.choice([1, -1, 1j]))
+        init = ent
+    else:
+        style = "real" if flavour == "farray" else rng.choice(["dense", "dense", "sparse", "basis", "uniform"])
+        init = rand_unit_vector(rng, n, style)
+    steps = []
+    nsteps = rng.randint(6, 14 if quick else 26)
+    nder = 0
+    for i in range(nsteps):
+        r = rng.random()
+        k = rng.randrange(_REL_MAX_POOL * 2)
+        if i == 0 or (r < 0.22 and nder < 5):
+            nder += 1
+            steps.append(("derive", k, rng.choice(_REL_DERIVE_ND), rng.choice(_REL_DERIVE_MAT), rng.random() < 0.15,
+                          _r(rng.random())))
+        else:
+            legal = r < 0.75
+            t = rng.choice([rng.uniform(0.1, 2 * math.pi - 0.1), rng.uniform(0.1, 3.0), math.pi / 2, 1e-3, 1e-5])
+            whole = rand_unit_vector(rng, n) if legal and rng.random() < 0.2 else None
+            steps.append(("legal" if legal else "illegal", k,
+                          rng.choice(_REL_LEGAL_ND if legal else _REL_ILLEGAL_ND),
+                          rng.choice(_REL_LEGAL_MAT if legal else _REL_ILLEGAL_MAT),
+                          _r(rng.random()), _r(rng.random()), _r(t), rng.choice(_REL_STYLES), whole))
+    return flavour, n, init, steps
+
+
+def _rel_describe(flavour, n, init, steps):
+    out = []
+    for st in steps:
+        if st[0] == "derive":
+            out.append(f"derive(obj{st[1]},{st[2]}|{st[3]}{',replace' if st[4] else ''},{st[5]})")
+        else:
+            w = "" if st[8] is None else "," + _vstr([complex(round(z.real, 6), round(z.imag, 6)) for z in st[8]])
+            out.append(f"{st[0]}(obj{st[1]},{st[2]}|{st[3]},{st[4]},{st[5]},{st[6]},{st[7]}{w})")
+    return f"hist_related {flavour} n={n} init={short_entries(init, 200)} :: " + "; ".join(out)
+
+
+def _rel_pair_index(style, i, j, n):
+    """an index expression that selects exactly positions i < j, in that order"""
+    if style == "slice":
+        return slice(i, j + 1, j - i)
+    if style == "negslice":
+        return slice(i - n, (j + 1 - n) if j + 1 < n else None, j - i)
+    if style == "array":
+        return np.array([i, j])
+    if style == "neglist":
+        return [i - n, j - n]
+    return [i, j]
+
+
+def _rel_single_index(style, i, n, two_d):
+    if style in ("negslice", "neglist"):
+        i = i - n
+    if two_d and style in ("array", "neglist"):
+        return (i, 0)
+    return i
+
+
+def _rel_step_nd(st, s):
+    """(index, value) of a planned step for a target whose store is the numeric array snapshot ``s``"""
+    _, _, op, _, u1, u2, t, style, whole = st
+    shape, ent = s[1], s[2]
+    n = len(ent)
+    two_d = len(shape) == 2
+
+    def col(vals):
+        return [[v] for v in vals] if two_d else list(vals)
+
+    nz = [i for i, e in enumerate(ent) if abs(e) > 1e-6] or [0]
+    a_pos = nz[min(int(u1 * len(nz)), len(nz) - 1)]
+    others = [x for x in range(n) if x != a_pos]
+    if op == "whole" or (whole is not None and st[0] == "legal"):
+        return slice(None), col(whole if whole is not None else [e * cmath.exp(1j * t) for e in ent])
+    if not others or op == "phase":
+        if st[0] == "legal":
+            return _rel_single_index(style, a_pos, n, two_d), ent[a_pos] * cmath.exp(1j * t)
+        return _rel_single_index(style, a_pos, n, two_d), abs(ent[a_pos]) + 0.3 + 0.5 * u2
+    b_pos = others[min(int(u2 * len(others)), len(others) - 1)]
+    i, j = min(a_pos, b_pos), max(a_pos, b_pos)
+    a, b = ent[i], ent[j]
+    idx = _rel_pair_index(style, i, j, n)
+    if op == "rot":
+        return idx, col([math.cos(t) * a - math.sin(t) * b, math.sin(t) * a + math.cos(t) * b])
+    if op == "swap":
+        return idx, col([b, a])
+    if op == "move":
+        m = math.sqrt(abs(a) ** 2 + abs(b) ** 2)
+        return idx, col([0.0, m] if u2 < 0.5 else [m * cmath.exp(1j * t), 0.0])
+    if op == "bad_single":
+        return _rel_single_index(style, a_pos, n, two_d), (abs(ent[a_pos]) + 0.3 + 0.5 * u2) * (1 if u1 < 0.5 else 1j)
+    if op == "bad_pair":
+        return idx, col([_r(0.55 + 0.4 * u1), _r(-0.55 - 0.4 * u2)])
+    # bad_bcast
+    return slice(i, None), _r(0.75 + 0.2 * u2)
+
+
+def _rel_step_mat(st, s):
+    """(index, value) of a planned step for a target whose store is the sympy Matrix snapshot ``s``"""
+    _, _, _, op, u1, u2, t, style, _ = st
+    ent = s[2]
+    n = len(ent)
+    sym_pos = [i for i, e in enumerate(ent) if not _is_num(e)]
+    tot = math.fsum(abs(_c(e)) ** 2 for e in ent if _is_num(e))
+    i = min(int(u1 * n), n - 1)
+    if st[0] == "legal" and op == "complete" and sym_pos:
+        i = sym_pos[min(int(u1 * len(sym_pos)), len(sym_pos) - 1)]
+    rest = tot - (abs(_c(ent[i])) ** 2 if _is_num(ent[i]) else 0.0)
+    idx = _rel_single_index(style, i, n, True)
+    ph = cmath.exp(1j * t) if u2 < 0.5 else (1.0 if u2 < 0.75 else -1.0)
+    if not sym_pos:
+        # symbol-free Matrix store: the numeric rule applies
+        if st[0] == "legal":
+            return (idx, _c(ent[i]) * cmath.exp(1j * t)) if op != "sym" else (idx, sympy.Symbol(SYMBOLS[int(u2 * 7.99)]))
+        return idx, abs(_c(ent[i])) + 0.3 + 0.5 * u2
+    if st[0] == "illegal":
+        big = math.sqrt(max(0.0, 1.0 - rest) + 0.05 + 0.7 * u2)
+        if op == "sym_pair_big" and n >= 2:
+            i = min(i, n - 2)
+            return (slice(i, i + 2), 0), [sympy.Symbol(SYMBOLS[int(u2 * 7.99)]), _r(1.0 + u2)]
+        return idx, _r(big) * (1 if u1 < 0.5 else 1j)
+    if op == "sym":
+        x = sympy.Symbol(SYMBOLS[int(u2 * 7.99)])
+        return idx, (x if u1 < 0.7 else x / 2)
+    if op == "complete" or (len(sym_pos) == 1 and i == sym_pos[0]):
+        if len(sym_pos) == 1 and rest < 1:
+            return idx, math.sqrt(1.0 - rest) * ph  # the last symbol goes: the numbers must now sum to 1
+    room = 0.98 - rest
+    if op == "pair_small" and n >= 2:
+        i = min(i, n - 2)
+        rest2 = tot - sum(abs(_c(ent[q])) ** 2 for q in (i, i + 1) if _is_num(ent[q]))
+        m = math.sqrt(max(0.0, 0.98 - rest2) * 0.4 * max(u2, 0.05))
+        return (slice(i, i + 2), 0), [_r(m), _r(m) * 1j]
+    if room <= 1e-3:
+        return idx, 0
+    return idx, _r(math.sqrt(room * max(u2, 0.05))) * ph
+
+
+def _rel_bind_map(s, how, u):
+    """a binding for a symbolic store: 'bind_some' = a proper subset of the symbols gets small values,
+    'bind_total' = every symbol gets a value, the bare ones sharing what is left of the unit norm"""
+    ent = s[2]
+    syms = set()
+    for e in ent:
+        if isinstance(e, sympy.Basic):
+            syms |= e.free_symbols
+    syms = sorted(syms, key=lambda x: x.name)
+    if not syms:
+        return {sympy.Symbol("alpha"): 0.1}
+    if how == "bind_some" and len(syms) > 1:
+        k = 1 + min(int(u * (len(syms) - 1)), len(syms) - 2)
+        return {x: _r(0.05 + 0.1 * q) for q, x in enumerate(syms[:k])}
+    bare = [x for x in syms if sum(1 for e in ent if e == x) == 1 and
+            all((x not in e.free_symbols) or e == x for e in ent if isinstance(e, sympy.Basic))]
+    m = {x: _r(0.05 + 0.1 * q) for q, x in enumerate(syms) if x not in bare}
+    if bare:
+        part = _subs_entries(ent, m)
+        others = math.fsum(abs(_c(e)) ** 2 for e in part if _is_num(e))
+        if others < 1:
+            w = [1.0 + q + u for q in range(len(bare))]
+            for x, wx in zip(bare, w):
+                m[x] = math.sqrt((1.0 - others) * wx / sum(w)) * (1j if u > 0.5 else 1)
+        else:
+            for x in bare:
+                m[x] = 0.1
+    return m
+
+
+def _stores_may_share(a, b):
+    va = getattr(a, "__dict__", {}).get("_amplitude_vector")
+    vb = getattr(b, "__dict__", {}).get("_amplitude_vector")
+    if va is vb:
+        return True
+    if isinstance(va, np.ndarray) and isinstance(vb, np.ndarray):
+        return bool(np.may_share_memory(va, vb))
+    return False
+
+
+def _rel_observe(ctx, pool, when):
+    """every object: still normalised; probabilities (both accessors, judged by the hooks against the object's own
+    store) and the public amplitudes describe what the object holds now"""
+    for k, wf in enumerate(pool):
+        s = snap(wf)
+        j = judge(s[2]) if s is not None else "bad"
+        ctx.check("related-invariant", j != "bad",
+                  lambda: f"{when}: object {k} holds {s and short_entries(s[2])}")
+        if j == "bad":
+            return False
+        # what a value-returning accessor hands out belongs to the caller, who may renormalise, clip or clear it:
+        # the next request (here: the one made inside get_outcome_probs, and those after the next step) must not
+        # be answered from the caller's copy
+        p = wf.get_probabilities()
+        if isinstance(p, np.ndarray) and p.flags.writeable and p.size and p.dtype != object:
+            p[...] = 7.25
+        d = wf.get_outcome_probs()
+        if isinstance(d, dict):
+            for v in d.values():
+                if isinstance(v, np.ndarray) and v.flags.writeable and v.size and v.dtype != object:
+                    v[...] = 7.25
+            d.clear()
+        flat = _flat_obj(wf.amplitudes)
+        ctx.check("amplitudes-view", entries_close(flat, s[2]),
+                  lambda: f"{when}: object {k}: amplitudes {short_entries(flat)} differ from the stored {short_entries(s[2])}")
+    return True
+
+
+def _run_related(ctx):
+    from orquestra.quantum.wavefunction import Wavefunction, flip_wavefunction
+
+    rng = ctx.rng
+    flavour, n, init, steps = _plan_related(rng, ctx.quick)
+    kinds = [st[0] for st in steps]
+    first_derive = kinds.index("derive")
+    nontrivial = "legal" in kinds[first_derive + 1:] and "illegal" in kinds
+    ctx.describe(_rel_describe(flavour, n, init, steps)[:6000], nontrivial)
+
+    if flavour == "carray":
+        arg = np.array(init, dtype=complex)  # the caller keeps this array
+    elif flavour == "farray":
+        arg = np.array([z.real for z in init], dtype=float)
+    elif flavour == "column":
+        arg = np.array(init, dtype=complex).reshape(n, 1)
+    elif flavour == "tuple":
+        arg = tuple(init)
+    else:
+        arg = list(init)
+    try:
+        wf0 = Wavefunction(arg)
+    except Exception as e:
+        ctx.check("ctor-accepts-valid", judge(init) != "ok", f"Wavefunction({short_entries(init)}) raised {e!r}")
+        return
+    ctx.check("ctor-accepts-valid", True)
+    pool = [wf0]
+    if not _rel_observe(ctx, pool, "after construction"):
+        return
+    for num, st in enumerate(steps):
+        tgt = pool[st[1] % len(pool)]
+        before = [snap(w) for w in pool]
+        s = before[st[1] % len(pool)]
+        if s is None:
+            return
+        when = f"step {num} {st[0]}"
+        if st[0] == "derive":
+            how = st[2] if s[0] == "nd" else st[3]
+            new = None
+            try:
+                if how == "amplitudes":
+                    new = Wavefunction(tgt.amplitudes)
+                elif how == "getslice":
+                    new = Wavefunction(tgt[:])
+                elif how == "same_arg":
+                    new = Wavefunction(arg if isinstance(arg, np.ndarray) else tgt.amplitudes)
+                elif how == "copy":
+                    new = Wavefunction(np.array(tgt.amplitudes))
+                elif how == "list":
+                    new = Wavefunction(list(tgt.amplitudes))
+                elif how == "wf":
+                    new = Wavefunction(tgt)
+                elif how == "flip":
+                    new = flip_wavefunction(tgt)
+                elif how == "bind_empty":
+                    new = tgt.bind({})
+                else:
+                    new = tgt.bind(_rel_bind_map(s, how, st[5]) if s[0] == "mat" else {sympy.Symbol("alpha"): 0.1})
+                ctx.mon.note(f"related:derive:{how}:{s[0]}:ok")
+            except Exception as e:
+                ctx.mon.note(f"related:derive:{how}:{s[0]}:{type(e).__name__}")
+                if not how.startswith("bind") and judge(s[2]) == "ok" and all(_is_num(x) for x in s[2]):
+                    ctx.check("ctor-accepts-valid", False,
+                              f"{how} of a wavefunction holding {short_entries(s[2])} raised {e!r}")
+                    return
+            ok = all(same_snap(b, snap(w)) for b, w in zip(before, pool))
+            ctx.check("related-bystander", ok, lambda: f"{when} ({how}) changed an existing object")
+            if not ok:
+                return
+            if new is not None and all(new is not w for w in pool):
+                if any(_stores_may_share(new, w) for w in pool):
+                    ctx.mon.note("related:derived-object-shares-storage")
+                if st[4] and len(pool) > 1:
+                    pool[st[1] % len(pool)] = new
+                elif len(pool) < _REL_MAX_POOL:
+                    pool.append(new)
+                else:
+                    pool[-1] = new
+            del tgt, new
+        else:
+            idx, val = _rel_step_nd(st, s) if s[0] == "nd" else _rel_step_mat(st, s)
+            shares = [w is tgt or _stores_may_share(w, tgt) for w in pool]
+            try:
+                tgt[idx] = val
+                raised = None
+            except Exception as e:  # accept / reject is judged by the hook on __setitem__
+                raised = e
+            ctx.mon.note(f"related:{st[0]}:{st[2] if s[0] == 'nd' else st[3]}:{s[0]}:"
+                         f"{'accepted' if raised is None else 'rejected'}")
+            if sum(shares) > 1 and raised is None:
+                ctx.mon.note("related:accepted-assignment-through-object-sharing-storage")
+            for k, (b, w) in enumerate(zip(before, pool)):
+                if raised is None and shares[k]:
+                    continue
+                ok = same_snap(b, snap(w))
+                ctx.check("related-bystander", ok, lambda: (
+                    f"{when}: wf[{idx!r}] = {_vstr(val) if not isinstance(val, np.ndarray) else val!r} on object "
+                    f"{st[1] % len(pool)} ({'raised ' + type(raised).__name__ if raised else 'accepted'}) changed object "
+                    f"{k}{'' if shares[k] else ', which shares no storage with it'}: {b and short_entries(b[2])} -> "
+                    f"{short_entries((snap(w) or [0, 0, ['?']])[2])}"))
+                if not ok:
+                    return
+            del tgt
+        if not _rel_observe(ctx, pool, f"after {when}"):
+            return
+
+
 def _ctor_case(ctx):
     from orquestra.quantum.wavefunction import Wavefunction
 
@@ -1502,6 +1930,8 @@ def _simulator_case(ctx):
 
 def run_case(ctx):
     cls = ctx.cls
+    if cls == "hist_related":
+        return _run_related(ctx)
     if cls.startswith("hist_"):
         return _run_history(ctx, cls)
     if cls == "ctor":
